@@ -166,16 +166,15 @@ Print Assumptions C17_example_other_suffix.
 
 (* outside the promise of the property: with two routes a twin can be accepted *)
 Theorem C17_example_two_routes_twin_accepted :
-  exists t1 t2 t3,
-    tree_add (new_tree (bs "r") [] false) (bs "/posts/{id}/author") (HUser (bs "a")) [] [GET] = Ok t1 /\
-    tree_add t1 (bs "/posts/{id}/about") (HUser (bs "b")) [] [GET] = Ok t2 /\
-    tree_add t2 (bs "/posts/{name}/author") (HUser (bs "c")) [] [GET] = Ok t3.
+  tree_add (new_tree (bs "r") [] false) (bs "/posts/{id}/author") (HUser (bs "a")) [] [GET] = Ok two_t1 /\
+  tree_add two_t1 (bs "/posts/{id}/about") (HUser (bs "b")) [] [GET] = Ok two_t2 /\
+  is_ok (tree_add two_t2 (bs "/posts/{name}/author") (HUser (bs "c")) [] [GET]) = true.
 Proof. exact two_routes_twin_accepted. Qed.
 Print Assumptions C17_example_two_routes_twin_accepted.
 
 Theorem C17_example_ambiguous_before_syntax :
-  exists t1, tree_add (new_tree (bs "r") [] false) (bs "/{a}/{b}") (HUser (bs "q")) [] [GET] = Ok t1 /\
-             tree_add t1 (bs "/{a}/{a}") (HUser (bs "p")) [] [GET] = Err (bs "ambiguous") /\
-             split [] (bs "/{a}/{a}") = Err (bs "dupname").
+  tree_add (new_tree (bs "r") [] false) (bs "/{a}/{b}") (HUser (bs "q")) [] [GET] = Ok dup_t1 /\
+  tree_add dup_t1 (bs "/{a}/{a}") (HUser (bs "p")) [] [GET] = Err (bs "ambiguous") /\
+  split [] (bs "/{a}/{a}") = Err (bs "dupname").
 Proof. exact ambiguous_before_syntax. Qed.
 Print Assumptions C17_example_ambiguous_before_syntax.
